@@ -39,3 +39,15 @@ func VerifPerformHandshake(rw io.ReadWriter) error { return performHandshake(rw)
 func VerifTransactionScanner(data []byte, atEOF bool) (int, []byte, error) {
 	return transactionScanner(data, atEOF)
 }
+
+// Aliases for unexported wire types, so the harness can build and decode them.
+type (
+	VerifFlattenedFileObject = flattenedFileObject
+	VerifHandshake           = handshake
+	VerifTransfer            = transfer
+	VerifFolderUpload        = folderUpload
+)
+
+// VerifFileItemScanner / VerifNewsPathScanner expose the remaining split functions.
+func VerifFileItemScanner(data []byte, atEOF bool) (int, []byte, error) { return fileItemScanner(data, atEOF) }
+func VerifNewsPathScanner(data []byte, atEOF bool) (int, []byte, error) { return newsPathScanner(data, atEOF) }
